@@ -31,6 +31,12 @@ import (
 func TestC04(t *testing.T) {
 	m := mon.New(t, "C04")
 	defer m.Done()
+	if mon.RaceBuild {
+		// race variant: only the concurrency class (the race detector costs 5–15×)
+		m.Rule("race-detector build: concurrency class only — per round 4–8 goroutines, each with its own poly1305.MAC / generic hook MAC (never shared) running precomputed chunked Write/Sum(prefix)/Verify jobs, plus package-level Sum and Verify loops on shared read-only inputs; start barrier, inner barrier after the first call, results judged after join against the single-threaded math/big reference; every 4th round under GOMAXPROCS(1). Interleavings are scheduler-chosen")
+		c04Concurrent(m, "race")
+		return
+	}
 	e := newC04Env(m)
 	defer e.free()
 	m.Rule("case = (key, message, write chunking), kind = index mod 10: 0 random (every length 0..130 enumerated separately, else U[0,4096]); " +
@@ -49,6 +55,9 @@ func TestC04(t *testing.T) {
 		c := e.build(i, r)
 		e.judge(c, i, r)
 	})
+
+	// distinct MACs / package-level Sum and Verify used by several goroutines at once
+	c04Concurrent(m, e.defName)
 
 	// every length 0..130 (all residues mod 16, block-count boundaries), 3 keys each
 	m.Each("lens", 131*3, func(i int64, r *rand.Rand) {
